@@ -115,6 +115,7 @@ def _worker_init(check_modname, env):
     signal.signal(signal.SIGINT, signal.default_int_handler)   # PyErr_SetInterrupt needs a python-level handler
     signal.signal(signal.SIGALRM, _alarm)
     import importlib
+    _coverage_start()
     _worker_check = importlib.import_module(check_modname)
     _worker_check.setup_worker()
     _journal = open(SCRATCH / f'journal-{os.getpid()}', 'w')
@@ -170,7 +171,33 @@ def _worker_chunk(args):
     _journal.seek(0)
     _journal.write(f'{-1:<12d}')
     _journal.flush()
+    _coverage_flush()
     return agg
+
+
+_cov = None
+
+
+def _coverage_start():
+    """tools/coverage_report.py: line coverage of the repository's python files and gcov data of the native engine"""
+    global _cov
+    if os.environ.get('VERIF_PYCOV'):
+        import coverage
+        _cov = coverage.Coverage(data_file=os.environ['VERIF_PYCOV'], data_suffix=True, include=['*/flipjump/*'])
+        _cov.start()
+
+
+def _coverage_flush():
+    if _cov is not None:
+        _cov.stop()
+        _cov.save()
+        _cov.start()
+    if os.environ.get('VERIF_GCOV'):
+        import ctypes
+        try:
+            ctypes.CDLL(os.environ['VERIF_GCOV']).verif_gcov_dump()
+        except (OSError, AttributeError):
+            pass
 
 
 def new_agg():
